@@ -36,7 +36,11 @@ class Scenario:
         runtime = ServiceRunner(accept_delay=1)
         kit = self.kit = K.Kit(env, runtime)
         for flavour in FLAVOURS:
-            kit.submit({"id": "by-" + flavour, "flavour": flavour, "steps": [("forever", 0.4)]})
+            # the coroutine bystanders have a scheduling point in the middle of every step:
+            # an execute may arrive while the loop thread is inside another task's step
+            kit.submit({"id": "by-" + flavour, "flavour": flavour,
+                        "steps": [("forever", 0.4) if flavour == "threading"
+                                  else ("forever-sections", 0.4)]})
         context = params["context"]
         steps = []
         for index, (flavour, outcome, args_index, duration) in enumerate(params["calls"]):
@@ -55,7 +59,20 @@ class Scenario:
                 kit.submit(desc, "execute")
             env.log("calls-done")
 
-        if context == "outside":
+        if params.get("twin"):
+            # two outside threads execute the very same callable at the same time
+            desc = self.calls[0]
+            shared = kit.payload(desc)
+
+            def twin_caller():
+                runtime.running.wait()
+                env.sleep(0.5)
+                kit.submit(desc, "execute", payload=shared)
+                env.log("calls-done")
+
+            env.spawn(twin_caller, "caller")
+            env.spawn(twin_caller, "caller2")
+        elif context == "outside":
             env.spawn(caller, "caller")
         else:
             tail = ("block",) if context == "threading" else ("forever", 0.4)
@@ -99,7 +116,26 @@ class Scenario:
                 if flavour in contexts:
                     contexts[flavour].add((who, data["loop"], data["token"]))
         results = []
-        for desc in self.calls:
+        if self.params.get("twin"):
+            desc = self.calls[0]
+            got = [(e, d) for s, _n, _w, e, d in log
+                   if e in ("execute-returned", "execute-raised") and d["id"] == desc["id"]]
+            objects = self.kit.returned.get(desc["id"], [])
+            key = "%s->%s:twin" % (label, desc["flavour"])
+            if stop_seq is not None and len(got) != 2:
+                violations.append((key + ":no-result", "%d of 2 simultaneous execute calls of "
+                                   "one callable returned" % len(got)))
+            for event, data in got:
+                if event != "execute-returned" or not any(data["value"] is o for o in objects):
+                    violations.append((key + ":wrong-result",
+                                       "a simultaneous execute of one callable gave %s %r"
+                                       % (event, data.get("value", data.get("exc")))))
+            if len(got) == 2 and all(e == "execute-returned" for e, d in got) and \
+                    got[0][1]["value"] is got[1][1]["value"]:
+                violations.append((key + ":same-object-twice",
+                                   "both callers received the same object"))
+            results = [e for e, d in got]
+        for desc in ([] if self.params.get("twin") else self.calls):
             ident, flavour = desc["id"], desc["flavour"]
             key = "%s->%s" % (label, flavour)
             starts = [(s, w, d) for s, _n, w, e, d in log if e == "start" and d["id"] == ident]
@@ -194,6 +230,9 @@ def scenario_params(tier):
         for duration in ((0.0,) if tier == "quick" else (0.0, 0.3)):
             out.append({"context": context,
                         "calls": [(flavour, outcome, next(counter) % len(ARGS), duration)]})
+    for flavour in FLAVOURS:
+        out.append({"context": "outside", "twin": True,
+                    "calls": [(flavour, ("return", "object"), 0, 0.2)]})
     # a plain callable whose synchronous first part must run in the runner as well
     for context, flavour in itertools.product(CONTEXTS, ["asyncio", "trio"]):
         if allowed(context, flavour):
